@@ -1,15 +1,7 @@
 NOTES = ("Model-based verification with explicit TLA+ specifications (spec/), TLC, and conformance harnesses (harness/). "
          "See DESIGN.md. KNOWN_FINDINGS.txt lists repaired and open defects.")
 
-NOT_APPLICABLE = { "C20": {
-  "bins": ["shutdown"], "tokio_bins": ["shutdown"], "specs": ["shutdown"],
-  "level": "model_checking",
-  "technique": "TLA+ model of accept loop, run thread, abstract pool and kernel backlog for both runtimes, checked by TLC for liveness under acceptor/run-thread fairness only plus the safety invariants; TLC-simulated behaviours replayed through hook gates on the real App::run; scripted gated races and random traffic-state scenarios trace-validated by TLC",
-  "text": "TLC proves that a signal always leads to run returning with the listener closed (Live_RunReturns with no fairness on handlers), that nothing accepted before the signal is refused service and no response to a pre-signal request is truncated, for <=3 connections x traffic states x pools 1..2 x both runtimes, with 9 sensitivity deviations and 4 race witnesses; TLC-simulated behaviours are forced step by step through gates at the accept-loop hook points of the real App::run (threaded and tokio), scripted races (client before the wake-up connection, wake-up during Dispatch, all workers busy) and seeded random scenarios (0..16 connections in 8 traffic states, pools 1..8, binds on 127.0.0.1 / 0.0.0.0 / [::]) are run with signal->return escalation 1/4/15 s, /proc/net/tcp listener check, re-bind, and reading every in-flight response to completion; every event log is validated by Trace_Shutdown.",
-  "note": "Trusts: the abstract pool (one Shutdown message plus detach); the process stays alive after run returns; 'bounded time' read as the 1 s / 4 s / 15 s escalation; a connection whose flag read comes after the signal may be dropped without response (DESIGN 5a); tokio's select! after cancel cannot be forced either way (such replays are marked not forceable, never a hang). Hooks are add-only at the accept loop.",
-  "ref": "DESIGN.md section 5 C20",
- },
-}
+NOT_APPLICABLE = {}
 
 CHECKS = {
  "C01": {
@@ -173,3 +165,12 @@ CHECKS = {
   "ref": "DESIGN.md section 5 C20",
  },
 }
+
+# refreshed technique/text/note strings (written by each check's builder after the strengthening rounds) override the
+# round-1 strings above; maintained with lib/pull_text.py
+import json as _json, os as _os
+_p = _os.path.join(_os.path.dirname(_os.path.abspath(__file__)), "manifest_text.json")
+if _os.path.exists(_p):
+    for _k, _v in _json.load(open(_p)).items():
+        if _k in CHECKS:
+            CHECKS[_k].update(_v)
